@@ -391,6 +391,10 @@ pub const URIS: &[&str] = &[
     "mxc:/", "vbscript:x", "jav&#x09;ascript:alert(1)", "javascript&colon;alert(1)", "https&#58;//a", "httpss://a",
     "http s://a", "mxc ://s/m", "MXC://s/m", "mailto", "magnet", "matrix:", "matrixx:a", "\u{e9}https://a", "https\u{0}://a",
     "https://a\"b", "https://a'b", "https://a<b>", "blob:x", "file:///etc/passwd", "tel:1",
+    // an allowed scheme without `//` whose value carries another scheme's `://` further on, and the
+    // reverse (seed3 C15-2: scheme taken at the first `://` instead of the first `:`)
+    "magnet:?xt=urn:btih:c12fe1&tr=udp://tracker.example:80", "mailto:x@y?body=see%20https://a.b", "matrix:r/a:b?via=https://x",
+    "javascript:location='https://a.b'", "data:text/html,https://a", "x:y://z", "https:evil://a", "mxc:javascript://s/m",
 ];
 
 pub const CLASSES: &[&str] = &[
@@ -548,7 +552,7 @@ fn clean_attrs(r: &mut Rng, el: &str) -> String {
     };
     match el {
         "a" => {
-            add(r, "href", &["https://a.b/c", "http://a", "ftp://a", "mailto:x@y", "magnet:?x"]);
+            add(r, "href", &["https://a.b/c", "http://a", "ftp://a", "mailto:x@y", "magnet:?x", "magnet:?xt=1&tr=udp://t.example", "mailto:x@y?body=https://a"]);
             add(r, "target", &["_blank"]);
         }
         "img" => {
